@@ -155,6 +155,12 @@ func (r *schemaLoader) resolveRef(ref *Ref, target interface{}, basePath string)
 			return err
 		}
 	}
+
+	if rv := reflect.ValueOf(res); rv.Kind() == reflect.Ptr && rv.IsNil() {
+		// a typed document yields a nil pointer for an optional member which is absent (e.g. "not", "items"...)
+		return fmt.Errorf("%q points to a member which is not set: %w", ref.String(), ErrSpec)
+	}
+
 	return swag.DynamicJSONToStruct(res, target)
 }
 
